@@ -77,6 +77,8 @@ def rec_fit(args):
         # on a noise-free ellipse the fit has no excuse; at PA = 0 - see the known finding - and for the coarser modes only converged ones)
         strict = c['mode'] in ('bilinear', 'linear_growth') and c['pa'] != 0
         rec['well'] = [bool((i.stop_code == 0 or strict) and 6.0 <= i.sma <= (12.0 if c['mode'] == 'maxrit' else 22.0) and i.valid and c['fix'] == 'none' and c['eps'] <= 50) for i in iso]
+        # nearest-neighbour sampling reads pixel values up to half a pixel off the ellipse: 5 % on steep profiles (2 % for bilinear)
+        rec['intens_tol'] = 820 if c['mode'] == 'nearest' else 330
         rec['stops'] = [int(i.stop_code) for i in iso if 6.0 <= i.sma <= 22.0]
         rec['model_checked'] = False; rec['model_maxrel'] = 0; rec['model_tol'] = 500
         if c['fix'] == 'none' and (idx % 3 == 0 or c.get('frame') != 'square') and n > 5 and c['mode'] != 'maxrit' and c['eps'] <= 50:
@@ -92,7 +94,7 @@ def rec_fit(args):
         rec['raised'] = True; rec['exc'] = repr(e)
         for k in ('sma', 'x0', 'y0', 'eps', 'pa', 'x0_err', 'y0_err', 'eps_err', 'pa_err', 'intens_rel', 'well'):
             rec[k] = []
-        rec.update(maxsma_bound=0, minsma_bound=0, image_untouched=True, x0_init=0, y0_init=0, pa_init=0, eps_init=0, tx0=0, ty0=0, teps=0, tpa=0,
+        rec.update(intens_tol=330, maxsma_bound=0, minsma_bound=0, image_untouched=True, x0_init=0, y0_init=0, pa_init=0, eps_init=0, tx0=0, ty0=0, teps=0, tpa=0,
                    model_checked=False, model_maxrel=0, model_tol=500)
     return rec
 
@@ -153,7 +155,7 @@ def run(ctx):
         bad.append(r2)
     vb = core.validate_batch(ctx, 'Trace_Iso', bad, 'SelfTest:Iso', shards=1)
     ctx.selftest('two isophotes swapped (list not sorted)', all(not v['ok'] for v in vb.values()))
-    ctx.assumptions += ['recovery tolerances: 3 sigma (reported) + 0.05 px / 0.02 eps / 0.03 rad, intensity 2 %, model 3 % inside 7 <= r <= 20 px',
+    ctx.assumptions += ['recovery tolerances: 3 sigma (reported) + 0.05 px / 0.02 eps / 0.03 rad, intensity 2 % (5 % with nearest-neighbour sampling), model 3 % inside 7 <= r <= 20 px',
                         'behaviour on noisy or non-elliptical images is not decided']
 
 
